@@ -30,6 +30,8 @@ type alt struct {
 	// AltIdxs lists all altered items of a coordinated multi-item alteration (nil: just AltIdx).
 	AltIdxs []int
 	Sub     *submission
+	// FailReason names the defect when the item does not verify (otherwise derived by diffing against the baseline).
+	FailReason string
 	// MustAdmit marks a fresh, fully valid submission (vacuity guard).
 	MustAdmit bool
 }
@@ -73,7 +75,7 @@ func (w *world) callVAPI(tg target, items []any, sub *submission) (res callResul
 			res.Panic = fmt.Sprint(r)
 		}
 	}()
-	switch tg.Name {
+	switch tg.endpoint() {
 	case "vapi/attestations-pre-electra", "vapi/attestations-electra":
 		var atts []*eth2spec.VersionedAttestation
 		for _, it := range items {
@@ -599,6 +601,11 @@ func (e *env) runVAPI(c *kit.Case, w *world, tg target) {
 		}
 	}
 
+	// 7. production-client worlds: fork-boundary sweep
+	for _, si := range w.forkSweep(k, v, v.Shares[share], rng) {
+		alts = append(alts, &alt{Class: "fork-sweep", Detail: si.Detail, Items: []any{vapiForm(k, v, si.Item)}, Sub: &submission{agreed: defAgreed}, FailReason: "wrong-fork-domain"})
+	}
+
 	// run: a few submissions at a time on the same component
 	var wg sync.WaitGroup
 	sem := make(chan struct{}, 3)
@@ -674,7 +681,9 @@ func (e *env) judgeVAPI(c *kit.Case, w *world, tg target, k kind, a *alt, baseIn
 		case !ai.claimed.InCluster:
 			addReason("validator-not-in-cluster")
 		case !w.verifies(ai.info, ai.claimed.PubShares[w.shareIdx]):
-			if multi {
+			if a.FailReason != "" {
+				addReason(a.FailReason)
+			} else if multi {
 				addReason("invalid-under-claimed-share")
 			} else {
 				addReason(w.diffReasons(ai.info, baseInfo, ai.claimed, baseV, w.shareIdx, w.shareIdx)...)
@@ -864,6 +873,9 @@ func (e *env) judgeVAPI(c *kit.Case, w *world, tg target, k kind, a *alt, baseIn
 
 		return true, false
 	default:
+		if a.Class == "fork-sweep" {
+			r.Count(fmt.Sprintf("fork_sweep_correct_domain_admitted=%v", reached), 1)
+		}
 		if reached {
 			r.Count("may_admit_admitted", 1)
 			e.tally(tg.Name, a.Class, cls, "admitted")
